@@ -269,6 +269,9 @@ def run(ctx):
     ctx.exhaustive("small-grid", small_grid(), body,
                    "accel, first-tick rate in -6..6 and near +-2^30/2^31 x budgets 1..4 x 4 accumulators")
     ctx.given("generated", cases(), body, quick=16000, thorough=1600000)
+    if ctx.thorough and ctx.shard == 0:
+        from pbt.fuzz import driver
+        driver.run_stage(ctx, "c03_moves", runs=100000, max_len=4096)
 
 
 def replay(ctx, part, case):
